@@ -5,7 +5,7 @@ here="$(dirname "$(readlink -f "$0")")"
 tier="${1:-quick}"
 export VERIF_SHRINK_TIME="${VERIF_SHRINK_TIME:-5s}"
 for d in "$here"/../seeded/C*; do
-  id=$(basename $d); prop=${id%%-*}
+  id=$(basename $d); prop=$(python3 -c "import json,sys,re; m=json.load(open(sys.argv[1])); print(re.search(r\"(C[0-9][0-9]) quick\", m[\"checks_run\"][\"cmd\"]).group(1))" $d/meta.json)
   out=$(MUT_LINES=3 MUT_COLS=160 "$here/run_mutant.sh" $d/patch.diff $prop $tier 2>&1 | grep -v WARNING)
   rc=$(echo "$out" | grep -o 'rc=[0-9]*' | tail -1)
   cls=$(echo "$out" | grep -m1 'class:' | sed 's/^ *class: //')
